@@ -30,6 +30,8 @@ TAGKEY = {
     "mplexrate": "getdata/mplex-multirate",
     "rawpad": "getdata/raw-bof-pad-native-type",
 }
+SMALL_BUFFERS = ("-DGD_VERIF_BUFFER_SIZE=64 -DGD_VERIF_BZIP_BUFFER_SIZE=64 -DGD_VERIF_LZMA_DATA_OUT=64 "
+                 "-DGD_VERIF_LZMA_DATA_IN=32 -DGD_VERIF_LZMA_LOOKBACK=16")
 K_CACHENEG = "getdata/mplex-cache-seeded-before-sample-zero"
 TAGPRIO = ["alloczero", "mplexseek", "unaligned", "mplexrate", "rawpad"]
 
@@ -78,7 +80,8 @@ def load_staged_known(chk, pid):
 class Case:
     """one generated dirfile: files on disk + the description for the model"""
 
-    def __init__(self, rng, idx, depth_max=6, simple=False):
+    def __init__(self, rng, idx, depth_max=6, simple=False, big=False):
+        self.big = big
         self.rng = rng
         self.idx = idx
         self.files = {}          # relative path -> bytes
@@ -132,7 +135,7 @@ class Case:
         spf = rng.choice(SPFS)
         if self.simple:
             spf = self.raws[0][2] if self.raws else spf
-        frames = rng.choice([0, 1, 2, 3, 4, 5, 6, 8])
+        frames = rng.choice([0, 1, 2, 3, 4, 5, 6, 8]) if not getattr(self, "big", False) else rng.choice([20, 40, 60, 90])
         n = frames * spf + (rng.randrange(spf) if rng.random() < 0.5 else 0)
         if rng.random() < 0.1:
             n = rng.choice([0, 1])
@@ -379,10 +382,28 @@ class Case:
         else:  # linterp
             self.nconst += 1
             tn = "lut%d.txt" % self.nconst
-            rows = rng.choice([2, 3, 5])
-            xs = sorted(rng.sample(range(-10, 50), rows))
+            rows = rng.choice([2, 3, 5, 8])
+            style = rng.choice(["int", "int", "frac", "frac", "wide"])
+            if style == "int":
+                xs = rng.sample(range(-10, 50), rows)
+            elif style == "frac":          # spacings below 1
+                xs = [v / 4.0 for v in rng.sample(range(-20, 120), rows)]
+            else:                          # negative and huge abscissae next to small ones
+                xs = rng.sample([-1e12, -3e9, -40.0, -0.5, 0.0, 0.25, 1.0, 7.0, 33.5, 5e9, 2.5e12, 1e15], rows)
             ys = [rng.choice([0, 1, 2, -4, 10, 0.5, 7]) for _ in range(rows)]
-            self.files[tn] = "".join("%s %s\n" % (fmtd(x), fmtd(y)) for x, y in zip(xs, ys)).encode()
+            # the file may list the rows in any order (the library sorts a table that is not ascending);
+            # the specification interpolates on the table sorted by x (abscissae are distinct)
+            order = list(range(rows))
+            how = rng.choice(["asc", "asc", "desc", "shuffle", "shuffle"])
+            if how == "asc":
+                order.sort(key=lambda i: xs[i])
+            elif how == "desc":
+                order.sort(key=lambda i: -xs[i])
+            else:
+                rng.shuffle(order)
+            self.files[tn] = "".join("%s %s\n" % (fmtd(xs[i]), fmtd(ys[i])) for i in order).encode()
+            srt = sorted(range(rows), key=lambda i: xs[i])
+            xs, ys = [xs[i] for i in srt], [ys[i] for i in srt]
             line = "%s LINTERP %s %s" % (name, a[0], tn)
             d = "def %s linterp %s %d %s" % (name, a[0], rows, " ".join("%x %x" % (dbits(x), dbits(y)) for x, y in zip(xs, ys)))
         frag["lines"].append(line)
@@ -404,7 +425,7 @@ class Case:
         nraw = rng.choice([2, 3, 3, 4, 5])
         for i in range(nraw):
             self.add_raw(frags[i % len(frags)] if i else main)
-        self.ref = self.raws[0]
+        self.ref = rng.choice(self.raws) if rng.random() < 0.5 else self.raws[0]
         nder = rng.choice([4, 6, 8, 10, 12])
         for _ in range(nder):
             self.add_derived(main)
@@ -419,7 +440,7 @@ class Case:
             sl.append("/FRAMEOFFSET %d" % fr["fo"])      # explicit: an included fragment inherits the parent's otherwise
             self.files[fn] = ("\n".join(sl + fr["lines"]) + "\n").encode()
             inc.append("/INCLUDE %s" % fn)
-        self.files["format"] = ("\n".join(hdr + inc + main["lines"] + ["/REFERENCE r0"]) + "\n").encode()
+        self.files["format"] = ("\n".join(hdr + inc + main["lines"] + ["/REFERENCE %s" % self.ref[1]]) + "\n").encode()
 
     def format_text(self):
         t = self.files["format"].decode()
@@ -531,12 +552,23 @@ def same(impl, ref, n, is_model):
     return True
 
 
-def generate(chk, ncases, nq, simple_frac=0.25, depth_max=6):
+def generate(chk, ncases, nq, simple_frac=0.25, depth_max=6, big=False):
     rng = chk.rng
     cases = []
     for i in range(ncases):
-        c = Case(rng, i, depth_max=depth_max, simple=rng.random() < simple_frac)
+        c = Case(rng, i, depth_max=depth_max, simple=rng.random() < simple_frac, big=big)
         c.qs = c.queries(nq)
+        if big:
+            # read histories on one handle over fields larger than the decoders' windows: the tail first,
+            # then the head, then the middle, of RAW and derived fields (look-back unlimited: one handle)
+            c.lb = -1
+            hist = []
+            for f in rng.sample(c.fields, min(4, len(c.fields))):
+                ln = 100 * f[3]
+                for s in (ln - rng.randint(1, 30), 0, rng.randint(0, 3), ln // 2 + rng.randint(-9, 9), rng.randint(0, ln)):
+                    hist.append((f[0], 9, max(0, s), rng.choice([1, 3, 8, 25, 70])))
+            c.qs = hist + c.qs[:6]
+            c.splits = []
         cases.append(c)
     return cases
 
@@ -595,7 +627,7 @@ def run_cases(cases, exe, drv, root, jobs=16, want_extents=False):
             if want_extents:
                 for f in c.fields:
                     lines.append("E %s" % f[0])
-                lines.append("N 0")
+                lines.append("N %d" % (c.ref[0] if getattr(c, "ref", None) else 0))
         return run_stream([drv], "\n".join(lines) + "\n")
 
     with ThreadPoolExecutor(max_workers=2 * jobs) as ex:
@@ -1098,6 +1130,25 @@ def main():
                         chk.known_confirm(WITNESS_KEYS[c.idx], "witness %d reproduced" % c.idx)
         allcases += cases[:3]
         shutil.rmtree(broot, ignore_errors=True)
+    # read histories over fields larger than the decoders' windows, on a library built with the H1 hook
+    # (64-byte raw / bzip2 / lzma buffers), every encoding, one handle per dirfile
+    try:
+        impl_s = vlib.build_impl("", SMALL_BUFFERS)
+        exe_s = vlib.build_harness(impl_s, os.path.join(vlib.VERIF, "harness/C01/rd.c"))
+        cases = generate(chk, 96 if not chk.thorough else 800, 6, simple_frac=0.5, depth_max=1, big=True)
+        for c in cases:
+            c.idx += 500000
+        broot = os.path.join(root, "big")
+        os.makedirs(broot)
+        problems = run_cases(cases, exe_s, drv, broot, jobs=vlib.NPROC)
+        for p in problems[:3]:
+            chk.violation("harness", p, {"kind": "harness", "detail": p}, found=False)
+        q0 = stats["queries"]
+        judge(chk, cases, stats, exe_s)
+        stats["history_queries_small_buffers"] = stats["queries"] - q0
+        shutil.rmtree(broot, ignore_errors=True)
+    except vlib.BuildError as e:
+        chk.violation("build", "small-buffer build failed: " + str(e)[:1500], {"kind": "build", "log": str(e)}, found=False)
     cxroot = os.path.join(root, "complex")
     os.makedirs(cxroot)
     complex_probe(chk, exe, cxroot, stats, 60 if not chk.thorough else 600)
